@@ -9,11 +9,51 @@ def classify(rec, v):
     return "C04/" + v.split(":", 1)[1].split("@")[0]
 
 
+def sharp_corner_family():
+    """a corner of about 16 degrees (miter ratio 7.07): mitered only when the miterlimit in force is at
+    least that - the default is 4, so without any stroke-miterlimit the join is bevelled"""
+    docs = []
+    for tag, g in (("polygon", [15, 6, 3, 8, 15, 10]), ("polyline", [15, 6, 3, 8, 15, 10])):
+        for w in (1, 2):
+            for ml in (None, 4, 10, 1):
+                for where in ("own", "group"):
+                    for fill in ("none", "blue"):
+                        st = [["stroke", "red", 0], ["stroke-width", w, 0]] + ([["stroke-miterlimit", ml, 0]] if ml else [])
+                        shape = {"d": 1, "tag": tag, "id": "", "g": g, "ref": "", "at": [["fill", fill, 0]]}
+                        if where == "own":
+                            shape["at"] += st
+                            nodes = [shape]
+                        else:
+                            shape["d"] = 2
+                            nodes = [{"d": 1, "tag": "g", "id": "", "at": st, "g": [], "ref": ""}, shape]
+                        docs.append({"vb": [0, 0, 16, 16], "view": [0, 0, 16, 16], "root": [], "nodes": nodes})
+    # an instance with opacity whose target is stroked only through what it INHERITS at the instance (from
+    # the use element or a group around it): fill and stroke pieces are composited as one group
+    for stroke_on in ("use", "group-around-use", "target"):
+        for e in (1, 2):
+            tgt = {"d": 2, "tag": "rect", "id": "t", "g": [3, 3, 8, 7, -1, -1], "ref": "", "at": [["fill", "blue", 0]]}
+            st = [["stroke", "red", 0], ["stroke-width", 2, 0]]
+            use = {"d": 1, "tag": "use", "id": "", "g": [1, 1], "ref": "t", "at": [["opacity", e, 0]]}
+            nodes = [{"d": 1, "tag": "defs", "id": "", "at": [], "g": [], "ref": ""}, tgt]
+            if stroke_on == "target":
+                tgt["at"] += st
+                nodes.append(use)
+            elif stroke_on == "use":
+                use["at"] += st
+                nodes.append(use)
+            else:
+                use["d"] = 2
+                nodes += [{"d": 1, "tag": "g", "id": "", "at": st, "g": [], "ref": ""}, use]
+            docs.append({"vb": [0, 0, 16, 16], "view": [0, 0, 16, 16], "root": [], "nodes": nodes})
+    return docs
+
+
 def run(out, tier):
     wd = common.workdir("c04")
     try:
         recs, texts, verdicts = render.run_render(out, "C04", "stroke", tier, 420, 1500, wd=wd, max_nodes=5,
-                                                  module="TraceStroke", cfg="TraceStroke.cfg")
+                                                  module="TraceStroke", cfg="TraceStroke.cfg",
+                                                  extra_docs=sharp_corner_family())
         cov = out.coverage
         cov["distinct_nontrivial"] = cov["parts"]["verdict_histogram"].get("ok:stroke", 0)
         cov["rule"] = ("documents drawn by TLC -simulate from Build.tla (Focus=stroke: stroke, stroke-width 1/2/4, "
